@@ -58,15 +58,15 @@ func (s *verifC40Series) Iterator(chunks.Iterator) chunks.Iterator {
 }
 
 // verifC40Chunk builds one aggregate chunk with all five aggregates present at the given model timestamps.
-func verifC40Chunk(name string, ts []int64, f int64) chunks.Meta {
+func verifC40Chunk(name string, ts []int64, f int64, lo, hi float64) chunks.Meta {
 	var cs [5]chunkenc.Chunk
 	for a := 0; a < 5; a++ {
 		c := chunkenc.NewXORChunk()
 		app, _ := c.Appender()
 		for i, t := range ts {
 			v := verifFloat(verifName(name, a, i))
-			verifAssume(v >= 0)
-			verifAssume(v <= 1000)
+			verifAssume(v >= lo)
+			verifAssume(v <= hi)
 			for j := int64(0); j < f; j++ {
 				app.Append(t*f-(f-1)+j, v)
 			}
@@ -118,11 +118,11 @@ func VerifC40Merge() {
 	last := int64(-(1 << 30))
 	for c := 0; c < na; c++ {
 		ts := verifC40Times(verifName("ta", c), verifIntRange(verifName("na", c), 1, verifParam("W", 2)), last)
-		a = append(a, verifC40Chunk(verifName("va", c), ts, f))
+		a = append(a, verifC40Chunk(verifName("va", c), ts, f, 0, 500))
 		last = ts[len(ts)-1]
 	}
 	tb := verifC40Times("tb", verifIntRange("nb", 1, verifParam("W", 2)), -(1 << 30))
-	b := []chunks.Meta{verifC40Chunk("vb", tb, f)}
+	b := []chunks.Meta{verifC40Chunk("vb", tb, f, 501, 1000)}
 	// overlap with A's first chunk (otherwise nothing is merged)
 	verifAssume(b[0].MinTime <= a[0].MaxTime)
 	verifAssume(a[0].MinTime <= b[0].MaxTime)
